@@ -20,6 +20,13 @@
 //   bassert <b> <id>       id = unique debug line number (as for assert)
 //   bhavoc <b>
 //   bzext <x> <b>          x := zext(b)   (integer variable x becomes 0 / 1)
+// Array statements (array variables a0, a1, ... of crab::ARR_INT_TYPE are created on first use; <a> = number,
+// <sz> = element size, a constant):
+//   ainit <a> <sz> <Elb> <Eub> <Eval>         array_init: a[lb..ub] := val, every other cell undefined
+//   astore <a> <sz> <strong 0|1> <Eidx> <Eval>   array_store of one cell
+//   astorer <a> <sz> <Elb> <Eub> <Eval>       array_store_range: a[lb..ub] := val
+//   aload <x> <a> <sz> <Eidx>                 x := a[idx]
+//   aassign <a> <a'>                          a := a'
 // Edges are added in the order given (this fixes successor / predecessor order).
 #pragma once
 #include "crab_lang.hpp"
@@ -55,6 +62,15 @@ struct program {
       bools.push_back(z_var(vfac[n], crab::BOOL_TYPE, 1));
     }
     return bools[i];
+  }
+  std::vector<z_var> arrs;    // array variables a0, a1, ...: created on first use
+  z_var avar(long i) {
+    if (i < 0) { std::cerr << "cfgtext: parse error\n"; std::exit(3); }
+    while ((long)arrs.size() <= i) {
+      std::string n = "a" + std::to_string(arrs.size());
+      arrs.push_back(z_var(vfac[n], crab::ARR_INT_TYPE));
+    }
+    return arrs[i];
   }
   std::string opt(const std::string &k, const std::string &def) const {
     for (auto &kv : opts) if (kv.first == k) return kv.second;
@@ -132,6 +148,11 @@ inline void add_stmt(program &P, z_basic_block_t &b, tok &k) {
   }
   else if (op == "bhavoc") { b.havoc(P.bvar(k.nexti())); }
   else if (op == "bzext") { long x = k.nexti(); b.zext(P.bvar(k.nexti()), P.vars[x]); }
+  else if (op == "ainit") { z_var a = P.avar(k.nexti()); z_number sz = k.nextz(); lin_t lb = parse_exp(P, k); lin_t ub = parse_exp(P, k); lin_t v = parse_exp(P, k); b.array_init(a, lb, ub, v, lin_t(sz)); }
+  else if (op == "astore") { z_var a = P.avar(k.nexti()); z_number sz = k.nextz(); long strong = k.nexti(); lin_t i = parse_exp(P, k); lin_t v = parse_exp(P, k); b.array_store(a, i, v, lin_t(sz), strong != 0); }
+  else if (op == "astorer") { z_var a = P.avar(k.nexti()); z_number sz = k.nextz(); lin_t lb = parse_exp(P, k); lin_t ub = parse_exp(P, k); lin_t v = parse_exp(P, k); b.array_store_range(a, lb, ub, v, lin_t(sz)); }
+  else if (op == "aload") { long x = k.nexti(); z_var a = P.avar(k.nexti()); z_number sz = k.nextz(); lin_t i = parse_exp(P, k); b.array_load(P.vars[x], a, i, lin_t(sz)); }
+  else if (op == "aassign") { z_var a = P.avar(k.nexti()); z_var a2 = P.avar(k.nexti()); b.array_assign(a, a2); }
   else { std::cerr << "cfgtext: unknown statement " << op << "\n"; std::exit(3); }
 }
 
